@@ -415,3 +415,21 @@ func TestVerifC10Races(t *testing.T) {
 	defer r.Finish()
 	vfRunScenarios(r, vfC14Scenarios())
 }
+
+func TestVerifC03Races(t *testing.T) {
+	r := vfev.New("C03", "races")
+	defer r.Finish()
+	var sel []vfScenario
+	for _, sc := range vfC14Scenarios() {
+		if sc.Name == "deltopic-sub-pub" || sc.Name == "leave-evict" {
+			sel = append(sel, sc)
+		}
+	}
+	vfRunScenarios(r, sel)
+}
+
+func TestVerifC13Races(t *testing.T) {
+	r := vfev.New("C13", "races")
+	defer r.Finish()
+	vfRunScenarios(r, vfC14Scenarios())
+}
